@@ -20,12 +20,13 @@ func init() {
 			"R3 in Flush every emission for a bucket precedes the deletion of that bucket within the same iteration, and each processor result produces exactly one send and one flushed-count; " +
 			"R4 the bucket key is ts − ts % Interval of the point's timestamp and the emitted timestamp is the bucket key; " +
 			"R5 every Processor implementation is returned by exactly one case of the function registry, the case names equal the function table of docs/aggregation.md, and the output lines have the formats `%s %f %d` / `%s.%s %f %d`.",
-		NotDecided: "the arithmetic of the ten functions; ascending flush order (relies on tsList staying sorted, a data-structure invariant over values); clock behaviour.",
+		NotDecided: "the arithmetic of the ten functions (e.g. percentile interpolation); that a library sort sorts; clock behaviour.",
 		Rules: []RuleDef{
 			{ID: "C10.R1", Min: 1, Doc: "one contribution per point: path enumeration of AddOrCreate with events proc.Add / constructor+store / numTooOld.Inc and the branch decisions of the two map lookups and the age test", Run: c10r1},
 			{ID: "C10.R2", Min: 3, Doc: "one definition of open: normalised comparison operators of the age test in AddOrCreate and the loop-exit test in Flush; the cutoff passed by run is tick − Wait seconds", Run: c10r2},
 			{ID: "C10.R3", Min: 3, Doc: "emit then forget: ordering of sends on Aggregator.out and delete(aggregations, ts) inside the tsList loop; send/Inc pairing by path enumeration of one iteration", Run: c10r3},
 			{ID: "C10.R4", Min: 2, Doc: "bucket start: value flow of AddOrCreate's `quantized` argument; operands of the two Sprintf calls in Flush", Run: c10r4},
+			{ID: "C10.R6", Min: 2, Doc: "bucket list stays sorted: on every path after tsList = append(tsList, q) the function either passes the in-order edge of a comparison of the previous last element with q (or finds the list shorter than two), or calls a library sort on tsList; the only other stores into tsList re-slice it (Flush) — a hand-written insertion is reported, because its correctness is a claim about values this analysis cannot decide", Run: c10r6},
 			{ID: "C10.R5", Min: 12, Doc: "registry: string cases of GetProcessorConstructor ↔ constructors ↔ Processor implementations ↔ docs/aggregation.md", Run: c10r5},
 		},
 	})
@@ -512,4 +513,206 @@ func docFunctionTable(file string) ([]string, error) {
 		return nil, err
 	}
 	return rows, nil
+}
+
+func c10r6(c *Check) {
+	tsF := c.P.Field("aggregator", "Aggregator", "tsList")
+	pkg := c.P.Pkg("aggregator").Types
+	sortFns := map[string]bool{"sort.Sort": true, "sort.Stable": true, "sort.Slice": true, "sort.SliceStable": true, "slices.Sort": true, "slices.SortFunc": true, "slices.SortStableFunc": true}
+	nApp, nOther := 0, 0
+	for _, fn := range c.P.Funcs {
+		if fnPkg(fn) != pkg {
+			continue
+		}
+		fn := fn
+		allInstrs(fn, func(in ssa.Instruction) {
+			st, ok := in.(*ssa.Store)
+			if !ok {
+				return
+			}
+			fa, ok := st.Addr.(*ssa.FieldAddr)
+			if !ok || fieldOfAddr(fa) != tsF {
+				return
+			}
+			// element stores go through IndexAddr, not through this store; classify the new list value
+			if call, ok := st.Val.(*ssa.Call); ok {
+				if b, ok := call.Call.Value.(*ssa.Builtin); ok && b.Name() == "append" && isFieldLoad(call.Call.Args[0], tsF) {
+					nApp++
+					elems, ok := variadicElems(call.Call.Args[1])
+					if !ok || len(elems) != 1 {
+						c.Violate(FuncName(fn)+" append to tsList", c.At(in), "tsList grows by something other than a single bucket start")
+						return
+					}
+					c10sortedAfterAppend(c, fn, st, elems[0], tsF, sortFns)
+					return
+				}
+			}
+			nOther++
+			// re-slice from the front keeps the order; fresh/empty lists are sorted
+			okV := false
+			switch x := st.Val.(type) {
+			case *ssa.Slice:
+				okV = isFieldLoad(x.X, tsF) // any sub-slice of a sorted list is sorted
+			case *ssa.MakeSlice:
+				okV = true
+			case *ssa.Const:
+				okV = x.IsNil()
+			}
+			c.Judge(okV, FuncName(fn)+" store into tsList keeps order", c.At(in), "sub-slice of the sorted list (or an empty list)", "tsList is replaced by something that is not a sub-slice of the sorted list")
+		})
+		// element writes into the list outside a library sort
+		allInstrs(fn, func(in ssa.Instruction) {
+			st, ok := in.(*ssa.Store)
+			if !ok {
+				return
+			}
+			if ia, ok := st.Addr.(*ssa.IndexAddr); ok && isFieldLoad(ia.X, tsF) {
+				c.Violate(FuncName(fn)+" element write into tsList", c.At(in), "the bucket list is reordered by hand (element store): Flush stops at the first bucket that is not yet due, so a list that is not fully sorted delays due buckets and emits them out of order — this analysis accepts only library sorts")
+			}
+		})
+	}
+	if nApp == 0 {
+		anchorFail("aggregator: no append to tsList")
+	}
+	// TsSlice is a plain uint ordering
+	less := c.P.Func("aggregator", "TsSlice", "Less")
+	okLess := false
+	allInstrs(less, func(in ssa.Instruction) {
+		if ret, ok := in.(*ssa.Return); ok && len(ret.Results) == 1 {
+			if bo, ok := ret.Results[0].(*ssa.BinOp); ok && bo.Op == token.LSS && indexParam(bo.X, less) == 1 && indexParam(bo.Y, less) == 2 {
+				okLess = true
+			}
+		}
+	})
+	c.Judge(okLess, "aggregator.TsSlice.Less is ascending", c.AtFn(less), "p[i] < p[j]", "TsSlice does not sort ascending: buckets are flushed newest first and Flush's early exit skips due buckets")
+}
+
+func c10sortedAfterAppend(c *Check, fn *ssa.Function, app *ssa.Store, q ssa.Value, tsF *types.Var, sortFns map[string]bool) {
+	isPrevLast := func(v ssa.Value) bool {
+		u, ok := strip(v).(*ssa.UnOp)
+		if !ok || u.Op != token.MUL {
+			return false
+		}
+		ia, ok := u.X.(*ssa.IndexAddr)
+		if !ok || !isFieldLoad(ia.X, tsF) {
+			return false
+		}
+		bo, ok := ia.Index.(*ssa.BinOp)
+		if !ok || bo.Op != token.SUB {
+			return false
+		}
+		k, ok := constInt(bo.Y)
+		if !ok || k != 2 {
+			return false
+		}
+		call, ok := bo.X.(*ssa.Call)
+		if !ok {
+			return false
+		}
+		b, ok := call.Call.Value.(*ssa.Builtin)
+		return ok && b.Name() == "len" && isFieldLoad(call.Call.Args[0], tsF)
+	}
+	isLenTs := func(v ssa.Value) bool {
+		call, ok := v.(*ssa.Call)
+		if !ok {
+			return false
+		}
+		b, ok := call.Call.Value.(*ssa.Builtin)
+		return ok && b.Name() == "len" && isFieldLoad(call.Call.Args[0], tsF)
+	}
+	active := false
+	cfg := &PathCfg{
+		Classify: func(in ssa.Instruction) []string {
+			if in == ssa.Instruction(app) {
+				return []string{"append"}
+			}
+			if cc := callCommon(in); cc != nil && sortFns[calleeName(cc)] && len(cc.Args) > 0 {
+				if derivedFromField(cc.Args[0], tsF) {
+					return []string{"sort"}
+				}
+			}
+			return nil
+		},
+		Branch: func(ifi *ssa.If, cond ssa.Value, taken bool) []string {
+			cnd, neg := negStrip(cond)
+			bo, ok := cnd.(*ssa.BinOp)
+			if !ok {
+				return nil
+			}
+			val := taken != neg
+			op := bo.Op
+			switch {
+			case isPrevLast(bo.X) && bo.Y == q:
+			case isPrevLast(bo.Y) && bo.X == q:
+				op = flipRel(op)
+			case isLenTs(bo.X):
+				// len(tsList) > 1 false / len(tsList) < 2 true: a single element is sorted
+				if k, ok := constInt(bo.Y); ok {
+					t1, _ := evalRel(bo.Op, 1, k)
+					t2, _ := evalRel(bo.Op, 2, k)
+					if t1 != t2 && val == t1 {
+						return []string{"short"}
+					}
+				}
+				return nil
+			default:
+				return nil
+			}
+			if !val {
+				op = negRel(op)
+			}
+			// now: prevLast op q holds on this edge
+			if op == token.LEQ || op == token.LSS || op == token.EQL {
+				return []string{"inorder"}
+			}
+			return nil
+		},
+	}
+	_ = active
+	paths, trunc := EnumPaths(fn, nil, cfg)
+	bad := ""
+	n := 0
+	for i := range paths {
+		pa := &paths[i]
+		k := pa.Index("append")
+		if k < 0 {
+			continue
+		}
+		n++
+		okP := false
+		for _, e := range pa.Events[k+1:] {
+			if e.Class == "sort" || e.Class == "inorder" || e.Class == "short" {
+				okP = true
+			}
+		}
+		if !okP {
+			bad = "after a new bucket start is appended the list is neither found in order nor sorted with a library sort: Flush stops at the first bucket that is not yet due, so an unsorted list delays due buckets and emits them out of ascending order: " + pa.String()
+		}
+	}
+	key := FuncName(fn) + " tsList sorted after append"
+	if trunc || n == 0 {
+		c.Undecided(key, c.At(app), "path enumeration incomplete")
+		return
+	}
+	c.Judge(bad == "", key, c.At(app), fmt.Sprintf("%d paths through the append: in order, or sorted", n), bad)
+}
+
+// derivedFromField: v is (a conversion of) a load of the struct field f.
+func derivedFromField(v ssa.Value, f *types.Var) bool {
+	for i := 0; i < 6; i++ {
+		if isFieldLoad(v, f) {
+			return true
+		}
+		switch x := v.(type) {
+		case *ssa.MakeInterface:
+			v = x.X
+		case *ssa.ChangeType:
+			v = x.X
+		case *ssa.Convert:
+			v = x.X
+		default:
+			return false
+		}
+	}
+	return false
 }
